@@ -13,7 +13,7 @@
    [sc sl] = its score, [None] = -inf.  [chain calc s0 p] is the language model run afresh
    on [p] from state [s0], adding up the log-probability of each token of [p]. *)
 From Coq Require Import List ZArith Arith Bool.
-From PV Require Import C04.Model C04.Spec C04.Topk C04.Refine C04.Proofs.
+From PV Require Import C04.Model C04.Spec C04.Topk C04.Abstract C04.Refine C04.Proofs.
 Import ListNotations.
 
 (* result shape: one beam per element, [width] slots each, every length within the tensor *)
@@ -87,6 +87,59 @@ Theorem c04_beam_batch_independent : forall (state : Type) topk (calc : list Z -
 Proof. exact @batch_independent. Qed.
 Print Assumptions c04_beam_batch_independent.
 
+(* "When the width is at least the number of complete sequences and all paths are run to
+   completion the result is the full set of them."
+   [eos_ok]: eos is a token of the vocabulary (the constructor checks it);
+   [to_completion]: finish_all_paths is set, or eos is unset;
+   [wide]: every duplicate-free list of complete sequences (for step limit max_iters) has at most
+   [width] members;  [complete]: over the vocabulary, and either ended by its first eos within
+   max_iters tokens, or max_iters tokens without eos.  Every complete sequence the model gives a
+   non-zero probability is then returned, with its chained score (a zero-probability sequence
+   cannot be told from an unusable slot, as the documentation warns). *)
+Theorem c04_beam_exhaustive_when_wide : forall (state : Type) topk (calc : list Z -> state -> nat -> list score * state)
+    dstate V width eos fin_all pad,
+  topk_ok topk -> lm_ok calc V -> 1 <= V -> 1 <= width -> forall max_iters inits n,
+  n < length inits ->
+  forall p, eos_ok V eos -> wide V width eos max_iters -> to_completion eos fin_all ->
+  complete V eos max_iters p -> sfin (chain calc (nth n inits dstate) p) = true ->
+  exists sl, In sl (nth n (beams_of topk calc dstate V width eos fin_all pad max_iters inits) []) /\
+             vpath sl = p /\ sc sl = chain calc (nth n inits dstate) p.
+Proof. exact @exhaustive_wide. Qed.
+Print Assumptions c04_beam_exhaustive_when_wide.
+
+(* the backbone: element n of the batched model, seen through valid prefixes and scores, IS the
+   junk-free single-element search [asearch] (Abstract.v) started from the n-th initial state;
+   and one step of that search preserves the loop invariant [AInv]: beam full width; every path
+   over the vocabulary; a live finite-score path has length t, no eos, carries the state the
+   language model reaches on exactly that path; a finished one ends in its first eos; scores
+   are chained sums, sorted, and finite-score paths pairwise distinct *)
+Theorem c04_search_refines : forall (state : Type) topk (calc : list Z -> state -> nat -> list score * state)
+    dstate V width eos fin_all pad,
+  topk_ok topk -> lm_ok calc V -> 1 <= V -> 1 <= width -> forall max_iters inits,
+  let out := fst (fst (search topk calc dstate V width eos fin_all pad max_iters inits)) in
+  length out = length inits /\
+  forall n, n < length inits ->
+    map vslot (nth n out []) =
+    map (vaslot (state:=state)) (asearch topk calc dstate V width eos fin_all max_iters (nth n inits dstate)) /\
+    forall sl, In sl (nth n out []) -> len sl <= length (col sl).
+Proof. exact @search_refines. Qed.
+Print Assumptions c04_search_refines.
+
+Theorem c04_beam_invariant : forall (state : Type) topk (calc : list Z -> state -> nat -> list score * state)
+    dstate V width eos,
+  topk_ok topk -> lm_ok calc V -> 1 <= V -> 1 <= width -> forall s0 t beam,
+  AInv calc dstate V width eos s0 t beam ->
+  AInv calc dstate V width eos s0 (S t) (astep topk calc dstate V width eos t beam).
+Proof. exact @AInv_step. Qed.
+Print Assumptions c04_beam_invariant.
+
+(* [wide] follows from the count the checker computes: the enumeration [complete_seqs]
+   (Spec.v) contains every complete sequence *)
+Theorem c04_wide_of_count : forall V width eos T,
+  length (complete_seqs V eos T) <= width -> wide V width eos T.
+Proof. exact wide_of_count. Qed.
+Print Assumptions c04_wide_of_count.
+
 (* the executable topk of the correspondence (stable) meets the specification assumed above *)
 Theorem c04_topk_stable_ok : topk_ok topk_stable.
 Proof. exact topk_stable_ok. Qed.
@@ -106,3 +159,9 @@ Example c04_nonvacuous :
   = [[([0%Z; 1%Z], Some (-5)%Z); ([1%Z], Some (-10)%Z)];
      [([1%Z], Some (-2)%Z); ([0%Z; 0%Z; 1%Z], Some (-17)%Z)]].
 Proof. exact ex_nonvacuous. Qed.
+
+(* ... and the hypotheses of the exhaustiveness theorem are met by a concrete instance *)
+Example c04_wide_nonvacuous :
+  wide 2 3 (Some 1%Z) 2 /\ eos_ok 2 (Some 1%Z) /\ to_completion (Some 1%Z) true /\
+  complete 2 (Some 1%Z) 2 [0%Z; 1%Z] /\ sfin (chain ex_lm 0%Z [0%Z; 1%Z]) = true.
+Proof. exact ex_wide. Qed.
